@@ -39,8 +39,8 @@ RULE = ("layouts built from block-occupancy vectors over nr x nc grids of unit b
         "sklearn.base.clone of the used instance (split twice; safe=False, i.e. a deep copy, while the splitters have no "
         "get_params), an instance built and used with another seed and then set_params(random_state=seed) (plain attribute "
         "assignment while the splitters have no set_params), and X in other memory layouts (np.asfortranarray, transposed view of a 2 x n array, "
-        "strided column view of a wider array; block_split labels must be identical too) - all of them on every case "
-        "in the thorough tier, one of the five variants per case (rotating) in quick. Float test/train sizes whose exact "
+        "strided column view of a wider array; block_split labels must be identical too) - thorough: all five variants on "
+        "every random/malformed case and two (rotating) on every exhaustive case; quick: one (rotating) per case. Float test/train sizes whose exact "
         "product with the number of blocks is within 1e-9 of an integer without being one are excluded (counted in "
         "EXTRA). A case is non-trivial when the cross-validator yields folds over >= 2 occupied blocks; distinct = "
         "distinct (labels, parameters, seed) tuples.")
@@ -226,7 +226,8 @@ def _observe(vd, make, seed, x, y, X, bargs, labels, variants, ncalls=3):
 def _variants_for(spec):
     if spec.get("all_variants"):
         return VARIANTS
-    return [VARIANTS[spec.get("variant", 0) % len(VARIANTS)]]
+    k = spec.get("variant", 0)
+    return [VARIANTS[(k + 2 * i) % len(VARIANTS)] for i in range(spec.get("nvariants", 1))]
 
 
 def _bargs_src(bargs):
@@ -248,7 +249,7 @@ def _do_kfold(spec):
     kw = dict(n_splits=spec["n_splits"], shuffle=spec["seed"] is not None, balance=spec["balance"])
     make = lambda seed: vd.BlockKFold(random_state=seed, **bargs, **kw)
     obs, failed = _observe(vd, make, spec["seed"], x, y, X, bargs, labels, _variants_for(spec),
-                           ncalls=3 if spec.get("all_variants") else 2)
+                           ncalls=spec.get("ncalls", 2))
     repro_ok = not failed
     if spec["seed"] is None:
         shuf = "None"
@@ -306,7 +307,7 @@ def _do_bss(spec):
     kw = dict(n_splits=spec["n_splits"], test_size=ts, train_size=tr, balancing=spec["balancing"])
     make = lambda seed: vd.BlockShuffleSplit(random_state=seed, **bargs, **kw)
     obs, failed = _observe(vd, make, spec["seed"], x, y, X, bargs, labels, _variants_for(spec),
-                           ncalls=3 if spec.get("all_variants") else 2)
+                           ncalls=spec.get("ncalls", 2))
     repro_ok = not failed
     # oracle: the permutations ShuffleSplit's random state draws, checked against the real ShuffleSplit
     perms = []
@@ -578,7 +579,9 @@ def _specs(tier, rnd):
     for k, sp in enumerate(specs):
         if sp["cv"] != "pbs":
             sp["variant"] = k // 2      # consecutive specs differ in balance on/off: give both the same variant
-            sp["all_variants"] = tier == "thorough"
+            sp["all_variants"] = tier == "thorough" and "exhaustive" not in sp["kind"]
+            sp["nvariants"] = 2 if tier == "thorough" else 1
+            sp["ncalls"] = 3 if tier == "thorough" else 2
     return specs
 
 
